@@ -130,6 +130,8 @@ fn test(case: &Case, st: &mut Stats, counting: bool) -> CaseResult {
         let mut prepop: Prepop = vec![];
         if case.lower_probe && n >= 2 {
             prepop.push((n - 1, "/low".to_string(), Node::File(std::sync::Arc::new(b"lower".to_vec()))));
+            prepop.push((n - 1, "/lowd".to_string(), Node::Dir));
+            prepop.push((n - 1, "/lowd/in".to_string(), Node::File(std::sync::Arc::new(b"inner".to_vec()))));
         }
         let built = build(&case.cfg, &prepop).map_err(e0)?;
         let root = built.root.clone();
@@ -283,12 +285,42 @@ fn test(case: &Case, st: &mut Stats, counting: bool) -> CaseResult {
                 }
             }
         }
-        // lower-only entry: observation only (DESIGN section 4)
+        // entries that exist only in a lower layer: the property does not oblige the overlay to
+        // support setters there (the unchanged tree answers FileNotFound), but whatever it answers,
+        // Ok must mean "exact value, nothing else touched" and Err must mean "nothing changed"
         if case.lower_probe && n >= 2 {
-            if let Ok(p) = at(&root, "/low") {
-                let r = p.set_modification_time(time_of(1_000_000, 0));
+            for (path, k) in [("/low", 0usize), ("/lowd", 1), ("/low", 2), ("/lowd/in", 0)] {
+                let p = at(&root, path).map_err(|e| (0usize, e.to_string()))?;
+                let field = [TimeField::Modified, TimeField::Accessed, TimeField::Created][(k + case.ops.len()) % 3];
+                let (secs, nanos) = times[(k * 7 + case.ops.len()) % times.len()];
+                let when = time_of(secs, nanos);
+                let before = m_of(&p.metadata().map_err(|e| (0usize, format!("metadata('{}'): {}", path, e)))?);
+                let r = match field {
+                    TimeField::Created => p.set_creation_time(when),
+                    TimeField::Modified => p.set_modification_time(when),
+                    TimeField::Accessed => p.set_access_time(when),
+                };
+                let after = m_of(&p.metadata().map_err(|e| (0usize, format!("metadata('{}') after the setter: {}", path, e)))?);
                 facts.4 += 1;
-                trace.push(format!("(observation) set Modified on lower-only '/low' -> {}", match r { Ok(()) => "Ok".into(), Err(e) => format!("{:?}", classify(e.kind())) }));
+                trace.push(format!("set {:?} on lower-only '{}' -> {}", field, path, match &r { Ok(()) => "Ok".to_string(), Err(e) => format!("{:?}", classify(e.kind())) }));
+                match r {
+                    Ok(()) => {
+                        let mut expect = before.clone();
+                        match field {
+                            TimeField::Created => expect.created = Some(when),
+                            TimeField::Modified => expect.modified = Some(when),
+                            TimeField::Accessed => expect.accessed = Some(when),
+                        }
+                        if after != expect {
+                            return Err((0, format!("set {:?} on the lower-only entry '{}' returned Ok but metadata went from {:?} to {:?}", field, path, before, after)));
+                        }
+                    }
+                    Err(e) => {
+                        if after != before {
+                            return Err((0, format!("set {:?} on the lower-only entry '{}' failed ({:?}) but metadata changed from {:?} to {:?}", field, path, classify(e.kind()), before, after)));
+                        }
+                    }
+                }
             }
         }
         facts.5 = st_during;
@@ -320,7 +352,7 @@ fn test(case: &Case, st: &mut Stats, counting: bool) -> CaseResult {
                 st.label(&format!("base:{}", base_leaf(&case.cfg)));
                 st.label_n("setters_ok_verified", facts.0 as u64);
                 st.label_n("setters_not_supported_verified", facts.1 as u64);
-                st.label_n("lower_only_observations", facts.4 as u64);
+                st.label_n("lower_only_setters_checked", facts.4 as u64);
                 st.label_n("setters_during_open_handle_verified", facts.5 as u64);
                 if nt {
                     st.nontrivial.insert(crate::util::fnv_str(&format!("{:?}", case)));
@@ -380,6 +412,6 @@ pub fn run(ctx: &RunCtx) -> i32 {
     }
     let (stats, failure) = run_sharded(ctx, "times", ctx.tier.pick(30_000, 2_000_000), strategy, test);
     let pre_epoch_subsec = usable_times().iter().filter(|(s, n)| *s < 0 && *n != 0).count();
-    write_evidence(ctx, "exploration", RULE, &stats, json!({"regress_replayed": reg.replayed, "usable_time_values": usable, "usable_pre_epoch_with_subsec": pre_epoch_subsec}), &["time values the host filesystem cannot round-trip natively are outside the generator's domain", "OverlayFS setters on lower-only entries are only observed (they return FileNotFound), see DESIGN section 4"], failure.is_some() as u32);
+    write_evidence(ctx, "exploration", RULE, &stats, json!({"regress_replayed": reg.replayed, "usable_time_values": usable, "usable_pre_epoch_with_subsec": pre_epoch_subsec}), &["time values the host filesystem cannot round-trip natively are outside the generator's domain", "for entries that exist only in a lower overlay layer a setter need not succeed, but Ok must be exact and Err must change nothing"], failure.is_some() as u32);
     finish(ctx, &stats, &failure, &[("distinct_nontrivial", 100), ("base:mem", 100), ("base:phys", 100), ("setters_not_supported_verified", 50)])
 }
